@@ -40,6 +40,10 @@ def cases(tier):
                     out.append(dict(prev=prev, hops=hops, age=age, unk=unk, crc=2 if (prev + hops) % 2 else 1))
     out.append(dict(prev=1, hops=1, age=1, unk=1, crc=0))
     # a second bundle forwarded after a first one (state kept between bundles must not matter)
+    # report-request flags with and without a report-to endpoint
+    out.append(dict(prev=1, hops=1, age=0, unk=0, crc=2, flags=0x10040, rep='none'))
+    out.append(dict(prev=0, hops=0, age=1, unk=0, crc=1, flags=0x64060, rep='none'))
+    out.append(dict(prev=0, hops=1, age=0, unk=0, crc=0, flags=0x10000, rep='real'))
     out.append(dict(prev=0, hops=1, age=0, unk=0, crc=1, warmup=1))
     out.append(dict(prev=1, hops=0, age=1, unk=1, crc=2, warmup=1))
     return out
@@ -67,7 +71,8 @@ def harness(case, tier):
     ts = c.sym_int('dtntime', 2 ** 32, 2 ** 39)    # before "now" (2^39 ms is the year 2017 in DTN time)
     seq = c.sym_int('seqno', 0, 2 ** 64 - 1 if wide else 23)
     life = c.sym_int('lifetime', 2 ** 32, 2 ** 64 - 1)
-    pri = dict(flags=0, crc_type=ct, destination='dtn://far/app', source='dtn://src/app', report_to='dtn:none',
+    pri = dict(flags=case.get('flags', 0), crc_type=ct, destination='dtn://far/app', source='dtn://src/app',
+               report_to='dtn://rep/svc' if case.get('rep') == 'real' else 'dtn:none',
                create_ts=[ts, seq], lifetime=life)
     blocks = []
     nums = []
@@ -99,11 +104,19 @@ def harness(case, tier):
     w.run_idle(20)
     esc = w.escaped()
     c.prove(not esc, 'no-callback-exception', detail=[repr(e) for (_s, e) in esc])
-    c.prove(len(w.sent) == 1, 'forwarded-once', detail=len(w.sent))
-    if len(w.sent) != 1:
+    # status reports (administrative records) may accompany the forwarded bundle
+    fwd = []
+    for d in w.sent:
+        try:
+            if bool((rfc9171.decode_bundle(d)['primary']['flags'] & 2) == 0):
+                fwd.append(d)
+        except rfc9171.Malformed:
+            fwd.append(d)
+    c.prove(len(fwd) == 1, 'forwarded-once', detail=dict(sent=len(w.sent), forwarded=len(fwd)))
+    if len(fwd) != 1:
         return {'class': 'not-forwarded', 'n': len(w.sent)}
     try:
-        out = rfc9171.decode_bundle(w.sent[0])
+        out = rfc9171.decode_bundle(fwd[0])
     except rfc9171.Malformed as err:
         c.prove(False, 'forwarded-bundle-wellformed', detail=str(err))
         return {'class': 'malformed'}
@@ -145,4 +158,4 @@ def harness(case, tier):
         for j in range(i + 1, len(ob)):
             c.prove(ob[i]['num'] != ob[j]['num'], 'block-numbers-unique', detail=[b['num'] for b in ob])
     rfc9171.check_crcs(c, out, c.prove)
-    return {'class': 'forwarded', 'blocks': len(ob), 'size': blen(w.sent[0])}
+    return {'class': 'forwarded', 'blocks': len(ob), 'size': blen(fwd[0])}
